@@ -28,10 +28,14 @@ func (k *keyedStore) part(id fix.StorageID) *memory.Storage {
 	return p
 }
 
-func (k *keyedStore) GetNextSeqNum(id fix.StorageID) (int, error) { return k.part(id).GetNextSeqNum(id) }
-func (k *keyedStore) GetCurrSeqNum(id fix.StorageID) (int, error) { return k.part(id).GetCurrSeqNum(id) }
-func (k *keyedStore) ResetSeqNum(id fix.StorageID) error          { return k.part(id).ResetSeqNum(id) }
-func (k *keyedStore) SetSeqNum(id fix.StorageID, n int) error     { return k.part(id).SetSeqNum(id, n) }
+func (k *keyedStore) GetNextSeqNum(id fix.StorageID) (int, error) {
+	return k.part(id).GetNextSeqNum(id)
+}
+func (k *keyedStore) GetCurrSeqNum(id fix.StorageID) (int, error) {
+	return k.part(id).GetCurrSeqNum(id)
+}
+func (k *keyedStore) ResetSeqNum(id fix.StorageID) error      { return k.part(id).ResetSeqNum(id) }
+func (k *keyedStore) SetSeqNum(id fix.StorageID, n int) error { return k.part(id).SetSeqNum(id, n) }
 func (k *keyedStore) Save(id fix.StorageID, m simplefixgo.SendingMessage, n int) error {
 	return k.part(id).Save(id, m, n)
 }
